@@ -59,6 +59,8 @@ def baseline(case):
     run = cc.execute(case)
     b = Base()
     b.exc = run.exc
+    # calls draw() itself made into the tty device (terminal queries issued by a render): (number, kind)
+    b.tty_calls = [(n, kind) for n, kind in run.tty_calls if kind in cc.TTY_IO_CALLS]
     log = list(run.stdout.log)
     data = iter(run.stdout.data)
     pts = []
@@ -168,14 +170,40 @@ def faults_of(case, b, j, quick):
     return out
 
 
+def tty_fault_points(b, quick):
+    """The tty calls of draw()'s terminal queries to put a fault on: every write / drain; of the waiting loop
+    of each query (clock, select, read - one read per byte of the reply) every call in thorough, the first
+    and the last three in quick (the calls in between repeat the same step of the same loop)."""
+    if not quick:
+        return list(b.tty_calls)
+    out, seg = [], []
+
+    def close():
+        out.extend(seg if len(seg) <= 6 else seg[:3] + seg[-3:])
+        del seg[:]
+
+    for n, kind in b.tty_calls:
+        if kind in ("write", "tcdrain"):
+            close()
+            out.append((n, kind))
+        else:
+            seg.append((n, kind))
+    close()
+    return out
+
+
 # ------------------------------------------------------------------------------------ one faulted run
 def sig_base(case, b, j, fault):
     """Kind of failure: API, still/animated, what was injected where (never the point number or the
     prefix length), and the style / terminal (old API) or renderable class / tty settings (new API)."""
     animation = case["frames"] > 1 and case.get("animate", True)
+    if "tty" in fault:
+        kind, setup = "tty-" + dict(b.tty_calls)[fault["tty"]], False
+    else:
+        kind, setup = b.points[j][1], j < b.first_render
     d = dict(api=case["api"], animated=bool(animation), exc=fault["exc"], mode=fault["mode"],
              history="+".join(st["op"] for st in case.get("pre") or ()) or None,
-             kind=b.points[j][1], setup=j < b.first_render, buffering=case.get("buffering", "none"))
+             kind=kind, setup=setup, buffering=case.get("buffering", "none"))
     if case["api"] == "old":
         d.update(style=case["style"], ident=case.get("ident", "other"))
     else:
@@ -199,9 +227,19 @@ def run_fault(col, case, b, j, fault):
         at_fault.update(state=t.state, nevents=len(t.events))
         return e
 
-    plan = world.FaultPlan(fault["k"], fault["mode"], make, fault.get("prefix"), bool(fault.get("buffered")))
-    run = cc.execute(case, plan=plan)
-    if not plan.fired:
+    if "tty" in fault:
+        # fault at a call into the tty device made by a terminal query that draw() itself issues
+        run = cc.execute(case, tty_fault=(fault["tty"], fault["mode"], make))
+        fired = run.tty_fault_fired
+        where = f"tty call #{fault['tty']} ({dict(b.tty_calls)[fault['tty']]}) of draw()'s terminal queries"
+    else:
+        plan = world.FaultPlan(fault["k"], fault["mode"], make, fault.get("prefix"), bool(fault.get("buffered")))
+        run = cc.execute(case, plan=plan)
+        fired = plan.fired
+        where = (f"point #{fault['k']} ({b.points[j][1]}"
+                 f"{' ' + repr(b.points[j][2][:24]) if b.points[j][2] else ''})"
+                 f"{' after ' + str(fault.get('prefix')) + ' chars' if fault['mode'] == 'partial' else ''}")
+    if not fired:
         raise world.HarnessError(f"C07: fault {fault} of {case} did not fire (nondeterministic baseline?)")
     term = run.term
     base = sig_base(case, b, j, fault)
@@ -209,11 +247,7 @@ def run_fault(col, case, b, j, fault):
     animation = base["animated"]
 
     def bad(clause, what):
-        col.violation(dict(base, clause=clause),
-                      f"{what} [fault: {fault['exc']} {fault['mode']} point #{fault['k']} ({b.points[j][1]}"
-                      f"{' ' + repr(b.points[j][2][:24]) if b.points[j][2] else ''})"
-                      f"{' after ' + str(fault.get('prefix')) + ' chars' if fault['mode'] == 'partial' else ''}]",
-                      replay)
+        col.violation(dict(base, clause=clause), f"{what} [fault: {fault['exc']} {fault['mode']} {where}]", replay)
 
     col.add_distinct(h64((repr(sorted(case.items())), "".join(run.stdout.data), type(run.exc).__name__)))
     if not term.visible:
@@ -351,6 +385,19 @@ def build_configs(tier):
             cfgs.append(dict(api="new", cls=cls, mode=mode, frames=frames, loops=1, cache=False,
                              size=(1, 1) if quick and cls == "TextR" else (2, 2), pad=("exact", 0, 0, 0, 0, " "),
                              term=term, row0=1, isatty=True, hide_cursor=hide, echo_input=False, pre=pre))
+    # ---- renders that query the terminal inside draw(): block images always do (default colours, terminal
+    # name); the graphics styles do for alpha="#" (terminal background colour).  Caches are fresh in every execution.
+    for (style, ident, method), frames in itertools.product(
+            [("block", "xterm", None), ("block", "kitty", None), ("kitty", "kitty", "lines"),
+             ("iterm2", "wezterm", "lines"), ("kitty", "konsole", "whole")], (1, 2)):
+        cfgs.append(dict(api="old", style=style, ident=ident, method=method, frames=frames, repeat=1, cached=False,
+                         size=(1, 1), fmt=(None, 1, None, 1), term=term, row0=1, isatty=True, alpha="#",
+                         tty_faults=True,
+                         src="pil" if frames == 1 else "file", **({"dyn": True, "seek": 1} if frames == 2 else {})))
+    for frames in (1, 2):
+        cfgs.append(dict(api="old", style="block", ident="other", method=None, frames=frames, repeat=1, cached=False,
+                         size=(2, 1), fmt=(None, 3, None, 2), term=term, row0=1, isatty=True, tty_faults=True,
+                         src="pil" if frames == 1 else "file"))
     # ---- buffered stdout (what sys.stdout really is): data reaches the terminal at flush(); a fault during
     # that hand-over delivers any prefix of everything pending
     for (cls, mode), frames in itertools.product(news, (1, 2)):
@@ -397,7 +444,11 @@ def _shard(units):
     col = _CTX.new_collector()
     for ci, j in units:
         case, b = _CONFIGS[ci], _BASE[ci]
-        for fault in faults_of(case, b, j, _QUICK):
+        if j < 0:     # the (-j)-th call of draw() into the tty device
+            faults = [dict(tty=-j, mode=m, exc=e) for e in EXCS for m in ("instead", "after")]
+        else:
+            faults = faults_of(case, b, j, _QUICK)
+        for fault in faults:
             try:
                 run_fault(col, case, b, j, fault)
             except world.HarnessError:
@@ -424,7 +475,7 @@ def run(ctx):
         _CONFIGS = [c for c in _CONFIGS if c["api"] == only]
     _BASE = []
     units = []
-    out_of_scope = 0
+    out_of_scope = tty_points = 0
     for ci, case in enumerate(_CONFIGS):
         b = baseline(case)
         ctx.count()
@@ -435,6 +486,10 @@ def run(ctx):
         _BASE.append(b)
         for j in range(b.cleanup_start):
             units.append((ci, j))
+        tcalls = tty_fault_points(b, _QUICK) if (case.get("tty_faults") or not _QUICK) else []
+        for n, kind in tcalls:
+            units.append((ci, -n))
+        tty_points += len(tcalls)
         out_of_scope += len(b.points) - b.cleanup_start
         ctx.max("points_per_draw", len(b.points))
         ctx.max("write_length", max([len(p[2]) for p in b.points if p[2]] or [0]))
@@ -451,13 +506,16 @@ def run(ctx):
                  "the run; " if _QUICK else
                  "every prefix length for writes up to 700 characters, first/last of each parser-equivalent run "
                  "for longer ones (chunked kitty payloads); ") +
+                "plus every write / drain / select / read / clock call into the tty device made by the terminal "
+                "queries a render issues inside draw() (fresh caches, queries enabled) x {instead, after}; "
                 "distinct = distinct (configuration, bytes that reached the terminal, outcome) triples")
     ctx.coverage.update(configurations=len(_CONFIGS), fault_points_in_scope=len(units),
+                        tty_query_fault_points=tty_points,
                         cleanup_points_out_of_scope=out_of_scope,
                         exceptions=sorted(EXCS), modes=["instead", "after", "partial/lost", "partial/buffered"])
     ctx.assumptions += ["faults are injected at calls into the environment (write/flush/sleep/render), not between "
                         "arbitrary bytecodes (DESIGN 6)", "vterm is the terminal (ESC inside a sequence aborts it, a "
-                        "lone ST is ignored)", "faults at termios calls belong to C13", "PIL"]
+                        "lone ST is ignored)", "faults at termios calls (tcgetattr / tcsetattr) belong to C13", "PIL"]
     if getattr(ctx, "opts", {}).get("dump"):
         import sys
 
@@ -472,6 +530,9 @@ def replay(ctx, rec):
         if not b.ok:
             ctx.violation(dict(api=case["api"], clause="baseline", animated=case["frames"] > 1),
                           f"fault-free draw() does not restore the terminal / raised {b.exc!r}", rec)
+        return
+    if "tty" in fault:
+        run_fault(ctx, case, b, None, fault)
         return
     j = next(i for i, p in enumerate(b.points) if p[0] == fault["k"])
     run_fault(ctx, case, b, j, fault)
